@@ -1,14 +1,12 @@
 package service
 
 import (
-	"bytes"
 	"context"
 	"fmt"
 	"github.com/VictoriaMetrics/fastcache"
 	"github.com/metrico/qryn/reader/logql/logql_transpiler_v2/shared"
 	"github.com/metrico/qryn/reader/model"
 	"github.com/metrico/qryn/reader/plugins"
-	"github.com/metrico/qryn/reader/utils/cityhash102"
 	"github.com/metrico/qryn/reader/utils/dbVersion"
 	"github.com/metrico/qryn/reader/utils/logger"
 	"github.com/metrico/qryn/reader/utils/tables"
@@ -257,15 +255,11 @@ func (c *CLokiQuerier) ReshuffleSeries(series []*model.Series) []*model.Series {
 	res := make([]*model.Series, 0, len(series))
 	for _, ent := range series {
 		labels := ent.LabelsGetter.Get(ent.Fp)
-		strLabels := make([][]byte, labels.Len())
-		for i, lbl := range labels {
-			strLabels[i] = []byte(lbl.Name + "=" + lbl.Value)
-		}
-		str := bytes.Join(strLabels, []byte(" "))
-		_fp := cityhash102.CityHash64(str, uint32(len(str)))
+		// not the joined "name=value name=value" text: {a="b c=d"} and {a="b", c="d"} print the same
+		_fp := labels.Hash()
 		if chunk, ok := seriesMap[_fp]; ok {
 			logger.Error(fmt.Printf("Warning: double labels set found [%d - %d]: %s",
-				chunk.Fp, ent.Fp, string(str)))
+				chunk.Fp, ent.Fp, labels.String()))
 			chunk.Samples = append(chunk.Samples, ent.Samples...)
 			sort.Slice(chunk.Samples, func(i, j int) bool {
 				return chunk.Samples[i].TimestampMs < chunk.Samples[j].TimestampMs
